@@ -1,0 +1,8 @@
+//go:build !verif
+
+package main
+
+import "github.com/google/go-tdx-guest/verify/trust"
+
+// verifGetterOverride is a verification hook; without the "verif" build tag it does nothing.
+func verifGetterOverride() trust.HTTPSGetter { return nil }
